@@ -645,6 +645,17 @@ def templates(tier="quick"):
     T.append(scenario("missing_source_of_a_validation/fresh", "template", [v], ops=mops, init=[], depth=2, tags=["missing-source", "fresh", "validation"]))
     T.append(scenario("missing_source_of_a_validation/built", "template", [v], ops=mops, init=[mb], depth=min(d, 4), tags=["missing-source", "built", "validation"]))
 
+    # T32-d a `default` statement that names a plain source file (no rule): missing, it is reported when ninja runs without targets
+    v = Variant("v0", [Stmt("a", ex=["s"]), Stmt("b", ex=["t", "dsrc"])], defaults=["a", "dsrc"])
+    mops = [{"op": "rm", "path": "dsrc", "label": "rm source dsrc"}, {"op": "edit", "path": "s", "label": "edit s"},
+            {"op": "write", "path": "dsrc", "content": "dsrc-back\n", "label": "restore dsrc"}]
+    mb = len(mops)
+    mops += [ninja_op(j=1), ninja_op(j=2, k=0), ninja_op(targets=["b"], j=1)]
+    T.append(scenario("missing_source_named_by_default/fresh", "template", [v], files={"dsrc": "dsrc-v0\n"}, ops=mops, init=[], depth=2,
+                      tags=["missing-source", "fresh"]))
+    T.append(scenario("missing_source_named_by_default/built", "template", [v], files={"dsrc": "dsrc-v0\n"}, ops=mops, init=[mb], depth=min(d, 4),
+                      tags=["missing-source", "built"]))
+
     # T32a a declared source that the recorded dependencies of *another*, up-to-date statement name as well (a header that is
     # also somebody's explicit input): what a dependency list says about a file does not make it optional where it is declared
     for kind, kw in (("gcc", {"deps": "gcc"}), ("depfile", {"depfile": True})):
